@@ -295,8 +295,53 @@ done:
   return 1;
 }
 
+/* yuvcomp <w> <h> <subsamp> <seed> : the same planar YUV image (every byte of the documented planes seeded, the padding columns and rows
+ * included) compressed through tj3CompressFromYUVPlanes8 with strides NULL, with strides all 0, with explicit strides equal to the plane
+ * widths, with wider strides, and through tj3CompressFromYUV8 from the unified buffer (align 1): five descriptions of one image by the
+ * documented geometry, one JPEG. */
+static int op_yuvcomp(toks_t *t)
+{
+  int w = (int)tl(t, 1), h = (int)tl(t, 2), ss = (int)tl(t, 3), nc = ss == TJSAMP_GRAY ? 1 : 3, i, y, k, bad = 0;
+  int pw[3] = { 0, 0, 0 }, ph[3] = { 0, 0, 0 }, st[3], zero[3] = { 0, 0, 0 };
+  unsigned char *tight[3] = { 0, 0, 0 }, *wide[3] = { 0, 0, 0 }, *uni = NULL, *jp[5] = { 0, 0, 0, 0, 0 }; size_t jn[5] = { 0, 0, 0, 0, 0 }, off = 0, usz;
+  const unsigned char *cp[3]; char why[200] = ""; tjhandle hc = tj3Init(TJINIT_COMPRESS);
+  yc_state = 0x2545F4914F6CDD1DULL ^ (unsigned long long)tl(t, 4) * 0x9E3779B97F4A7C15ULL;
+  tj3Set(hc, TJPARAM_SUBSAMP, ss); tj3Set(hc, TJPARAM_QUALITY, 95);
+  usz = tj3YUVBufSize(w, 1, h, ss);
+  uni = (unsigned char *)malloc(usz + 1);
+  for (i = 0; i < nc; i++) {
+    pw[i] = tj3YUVPlaneWidth(i, w, ss); ph[i] = tj3YUVPlaneHeight(i, h, ss); st[i] = pw[i] + 3 + i;
+    tight[i] = (unsigned char *)malloc((size_t)pw[i] * ph[i] + 1); wide[i] = (unsigned char *)malloc((size_t)st[i] * ph[i] + 1);
+    memset(wide[i], 0x77, (size_t)st[i] * ph[i]);
+    for (y = 0; y < ph[i]; y++) for (k = 0; k < pw[i]; k++) {
+      unsigned char v = (unsigned char)((k * 3 + y * 5 + (yc_next() & 31)) & 255);
+      tight[i][(size_t)y * pw[i] + k] = v; wide[i][(size_t)y * st[i] + k] = v; uni[off + (size_t)y * pw[i] + k] = v;
+    }
+    off += (size_t)pw[i] * ph[i];
+  }
+  printf("R yuvcomp %dx%d ss=%d planes %dx%d %dx%d\n", w, h, ss, pw[0], ph[0], pw[1], ph[1]);
+  for (i = 0; i < 3; i++) cp[i] = tight[i];
+  if (tj3CompressFromYUVPlanes8(hc, cp, w, NULL, h, &jp[0], &jn[0]) < 0) { bad = 1; snprintf(why, sizeof(why), "strides NULL: %s", tj3GetErrorStr(hc)); }
+  if (!bad && tj3CompressFromYUVPlanes8(hc, cp, w, zero, h, &jp[1], &jn[1]) < 0) { bad = 1; snprintf(why, sizeof(why), "strides 0: %s", tj3GetErrorStr(hc)); }
+  if (!bad && tj3CompressFromYUVPlanes8(hc, cp, w, pw, h, &jp[2], &jn[2]) < 0) { bad = 1; snprintf(why, sizeof(why), "strides = plane widths: %s", tj3GetErrorStr(hc)); }
+  for (i = 0; i < 3; i++) cp[i] = wide[i];
+  if (!bad && tj3CompressFromYUVPlanes8(hc, cp, w, st, h, &jp[3], &jn[3]) < 0) { bad = 1; snprintf(why, sizeof(why), "wider strides: %s", tj3GetErrorStr(hc)); }
+  if (!bad && tj3CompressFromYUV8(hc, uni, w, 1, h, &jp[4], &jn[4]) < 0) { bad = 1; snprintf(why, sizeof(why), "unified buffer: %s", tj3GetErrorStr(hc)); }
+  for (i = 1; i < 5 && !bad; i++)
+    if (jn[i] != jn[0] || memcmp(jp[i], jp[0], jn[0])) {
+      static const char *nm[5] = { "strides NULL", "strides all 0", "strides = plane widths", "wider strides", "tj3CompressFromYUV8 (align 1)" };
+      bad = 1; snprintf(why, sizeof(why), "the JPEG from '%s' (%zu bytes) differs from the one from 'strides NULL' (%zu bytes)", nm[i], jn[i], jn[0]);
+    }
+  if (bad) printf("O fail yuvcomp %dx%d subsamp %d: %s\n", w, h, ss, why); else printf("O ok\n");
+  for (i = 0; i < 3; i++) { free(tight[i]); free(wide[i]); }
+  for (i = 0; i < 5; i++) tj3Free(jp[i]);
+  free(uni); tj3Destroy(hc);
+  return 1;
+}
+
 static int dispatch_c20(toks_t *t)
 {
+  if (!strcmp(t->tok[0], "yuvcomp") && t->n >= 5) return op_yuvcomp(t);
   const char *op = t->tok[0];
   if (!strcmp(op, "yuvgeom")) return op_yuvgeom(t);
   if (!strcmp(op, "jbuf")) return op_jbuf(t);
